@@ -32,6 +32,18 @@ class Contract(object):
     def canaries(self, S, case, env, result):
         return ()
 
+    # ---- modular use: the contract replaces the body at call sites of verified callers ----
+    def requires(self, S, case, env):
+        """[(name, formula)] -- assumed by setup(), proved at every call site that uses the contract"""
+        return ()
+
+    def bind(self, *args, **kwargs):
+        """actual call arguments -> (case, env); raise NotImplementedError when the call is outside the contract's cases"""
+        raise NotImplementedError
+
+    def fresh_result(self, S, case, env):
+        raise NotImplementedError
+
     def bound_lengths(self, case):
         return list(self.bound_names)
 
